@@ -4,13 +4,8 @@ CONSTANT ScenSet = "wsgi"
 INVARIANT CreatedFirst
 INVARIANT CreatedOnce
 INVARIANT ClosedOnce
-INVARIANT ClosedLast
 INVARIANT FnAtMostOnce
 INVARIANT FnAfterCall
-INVARIANT RetObjIffRet
-INVARIANT ExcObjIffFault
-INVARIANT DocStrMatch
-INVARIANT LevelsFollow
 INVARIANT SrOnce
 INVARIANT CloseAfterBody
 INVARIANT WsgiCloseOnce
@@ -18,8 +13,8 @@ INVARIANT NoFnOnInFault
 INVARIANT BadReqIsClient
 INVARIANT StatusTable
 INVARIANT NoEscape
-PROPERTY Terminates
-CHECK_DEADLOCK FALSE
 INVARIANT ReadBound
 INVARIANT TooLongRefused
 INVARIANT CountersAgree
+PROPERTY Terminates
+CHECK_DEADLOCK FALSE
